@@ -265,6 +265,20 @@ def form_stream(res, rng, n):
         reqs.append(' '.join(['hlrf', str(d), ','.join(kinds), fcsv(p1), fcsv(p2), fcsv(np.array(nat.rhoZ).flatten()), fbits(tol), str(iters),
                               fbits(c0), fcsv(b), fcsv(Q.flatten())]))
         meta.append(('hlrf', case, status, out, [c.tolist() for c in calls], d, nat, dists))
+        # `dg = None`: the gradient is the three-point stencil of `gradient` (order 3) with step dx; model: Deriv.partialD inside Form.hlrf
+        if i % 3 == 0 and status == 'ok':
+            dxv = rng.choice([1e-6, 1e-6, 1e-5, 1e-4])
+            gq0 = lambda X, c0=c0, b=b, Q=Q: c0 + float(b @ np.array(X, dtype=float)) + float(np.array(X, dtype=float) @ Q @ np.array(X, dtype=float))
+            try:
+                out2, st2 = rrm.hlrfFORM(d, gq0, None, dists, R.tolist(), tol=tol, iter=iters, dx=dxv), 'ok'
+            except ValueError as e:
+                out2, st2 = None, ('noconv' if 'converge' in str(e) else 'raised:' + repr(e)[:100])
+            except Exception as e:  # noqa
+                out2, st2 = None, 'raised:' + repr(e)[:100]
+            reqs.append(' '.join(['hlrfnum', str(d), ','.join(kinds), fcsv(p1), fcsv(p2), fcsv(np.array(nat.rhoZ).flatten()), fbits(tol), str(iters),
+                                  fbits(c0), fcsv(b), fcsv(Q.flatten()), fbits(dxv)]))
+            meta.append(('hlrfnum', dict(case, dg=None, dx=dxv), st2, out2, out, d, nat, dists))
+            res.stat('form_numerical_gradient')
         res.stat('form_' + shape)
         for kd in kinds:
             res.stat('form_family_' + kd)
@@ -290,6 +304,32 @@ def form_stream(res, rng, n):
                 res.disagreements.append({'what': 'mvalFOSM: model vs implementation', 'input': case, 'impl': float(out), 'model': mv})
             continue
         toks = line.split(' ')
+        if what == 'hlrfnum':
+            # outcome only (the evaluation points of g now include the stencil points).  `calls` holds the result of the analytic-gradient
+            # run of the implementation: a loop that is not contractive amplifies the 1e-10 noise of the difference quotient, so the
+            # comparison is made where the two runs of the IMPLEMENTATION agree to 1e-6 (else: counted, not compared)
+            if len(toks) != 3:
+                res.disagreements.append({'what': 'hlrfnum model: bad answer', 'input': case, 'model': line[:200]})
+                continue
+            if status != 'ok' or toks[0] != 'ok':
+                res.stat('form_numgrad_outcome_%s_model_%s' % (status.split(':')[0], toks[0]))
+                continue
+            beta, pf, u, x = out
+            ab, _, au, ax = calls
+            if not all(abs(z) <= 6.0 for z in zs_of(dists, list(ax)) if z == z):
+                res.stat('form_numgrad_design_point_in_the_far_tail')
+                continue
+            def rel(a, b):
+                return max(abs(float(p) - float(q)) / (1.0 + abs(float(q))) for p, q in zip(a, b))
+            if rel([beta] + list(u) + list(x), [ab] + list(au) + list(ax)) > 1e-6:
+                res.stat('form_numgrad_run_sensitive_to_gradient_noise')
+                continue
+            mf, mxv = unbits(toks[1]), unbits(toks[2])
+            res.traces += 1
+            if rel([mf[0]] + mf[1:] + mxv, [beta] + list(u) + list(x)) > 2e-6:
+                res.disagreements.append({'what': 'hlrfFORM( dg = None ): returned beta / uCoord / xCoord', 'input': case,
+                                          'impl': [float(beta), list(map(float, u)), list(map(float, x))], 'model': [mf, mxv]})
+            continue
         if len(toks) != 4:
             res.disagreements.append({'what': 'hlrf model: bad answer', 'input': case, 'model': line[:200]})
             continue
